@@ -874,6 +874,80 @@ def run_forced_decoder(ctx):
     return disagreements
 
 
+POOL_STEPS = [
+    "sdec.ok", "sdec.simplehdr", "sdec.unknown", "sdec.unknown-missing-handler", "sdec.argerr", "sdec.badtag", "sdec.empty",
+    "sdec.end", "sdec.hdrerr", "sdec.trunc", "sdec.noargs", "sdec.panic",
+    "senc.ok", "senc.simple", "senc.err", "senc.panicerr", "senc.unsupported", "senc.panic",
+    "cenc.ok", "cenc.simple", "cenc.unsupported", "cenc.panic",
+    "cdec.ok", "cdec.error", "cdec.end", "cdec.badtag", "cdec.simplehdr", "cdec.trunc", "cdec.multi", "cdec.casterr",
+    "cdec.noresult", "cdec.panic",
+    "fmt.marshal", "fmt.marshal-ref", "fmt.marshal-unsupported", "fmt.unmarshal-ref", "fmt.unmarshal-ref-err",
+    "fmt.unmarshal-ref-panic", "fmt.unmarshalr", "fmt.unmarshalr-err", "fmt.unmarshalr-panic",
+]
+K_POOL_TWICE = "pool-object-handed-out-twice"
+
+
+def run_pool_users(ctx):
+    """the USERS of the pools.  (a) go/ast walk (harness/cmd/c14pool): every Get* is followed at once by one deferred Free* of
+    the same variable, nothing else frees, the object does not leave the function; unknown shapes fail.  (b) every codec /
+    Formatter entry point through all its exits (ok, error, unknown method, missing-method handler, header error, truncated,
+    panic); after each step the pools must be exclusive; then overlapping uses must each get their own data back."""
+    hv.build_harness("c14pool")
+    rc, obs, err = hv.run_harness("c14pool", [{"id": 1, "repo": hv.REPO}])
+    problems = []
+    if rc != 0 or not obs:
+        problems.append("the go/ast walk did not run: " + err[-300:])
+        sites = []
+    else:
+        problems += obs[0]["problems"]
+        sites = obs[0]["sites"]
+        # fail closed: every textual Get*() call outside io/pool.go must have been recognised as a site
+        textual = 0
+        for root, dirs, files in os.walk(hv.REPO):
+            dirs[:] = [d for d in dirs if not d.startswith(".")]
+            for f in files:
+                if f.endswith(".go") and not f.endswith("_test.go") and os.path.relpath(os.path.join(root, f), hv.REPO) != os.path.join("io", "pool.go"):
+                    textual += len(re.findall(r"\bGet(?:Encoder|Decoder)\(\)", open(os.path.join(root, f), errors="replace").read()))
+        if textual != len(sites):
+            problems.append("%d Get*() calls in the sources, %d recognised as '<v> := Get*()...; defer Free*(<v>)'" % (textual, len(sites)))
+    ctx.note("pool_user_sites", ["%s %s (%s %s)" % (x["file"], x["func"], x["kind"], x["var"]) for x in sites])
+
+    r = ctx.rng
+    quick = ctx.tier == "quick"
+    cases = [{"id": 900000, "kind": "poolusers", "steps": POOL_STEPS + ["conc"]}]
+    for i in range(8 if quick else 60):
+        steps = r.sample(POOL_STEPS, len(POOL_STEPS))[: r.randint(6, len(POOL_STEPS))]
+        cases.append({"id": 900001 + i, "kind": "poolusers", "steps": steps + ["conc"]})
+    cases, byid = run_cases(ctx, "c14", cases, "poolusers")
+    found = False
+    for c in cases:
+        o = byid[c["id"]]
+        ctx.count_case("poolusers|" + ",".join(c["steps"]), nontrivial=True)
+        if o["excl"][0] != "ok":
+            ctx.report(K_POOL_TWICE + ":before-any-step", "the pools are not exclusive before the first step: " + o["excl"][0],
+                       {"case": c, "observation": o, "failing_input": True})
+        for st, out, ex in zip(c["steps"], o["outs"], o["excl"][1:]):
+            ctx.bump("pool_user_exits", st.split(".")[0] + ":" + out.split(":")[0].split("=")[0])
+            if ex != "ok":
+                found = True
+                ctx.report(K_POOL_TWICE + ":" + st, "after the step %s (-> %s) the pool handed one object to two holders: %s (a coder was "
+                           "put into the sync.Pool twice: two users now decode/encode through the same object)" % (st, out, ex),
+                           {"case": dict(c, steps=c["steps"][: c["steps"].index(st) + 1]), "observation": {"outs": o["outs"], "excl": o["excl"]},
+                            "failing_input": True, "coq_witness": "double_free_refuted (Props/C14.v); C14_pool_exclusive needs 'disciplined'"})
+                break
+            if st == "conc" and not out.startswith("wrong=0 "):
+                found = True
+                ctx.report(K_POOL_TWICE + ":concurrent-users", "overlapping codec / Formatter uses after the steps %s did not all get their own "
+                           "data back: %s" % (",".join(c["steps"][:-1])[:200], out),
+                           {"case": c, "observation": {"outs": o["outs"], "excl": o["excl"]}, "failing_input": True, "statistical": True})
+    if problems:
+        ctx.report("structure:pool-users-free-exactly-once",
+                   "users of the coder pools: " + " | ".join(problems)[:1500] + ". C14_pool_exclusive needs every user to free exactly what it "
+                   "holds, once" + (" (witness on the implementation: see %s)" % K_POOL_TWICE if found else ""),
+                   {"failing_input": False, "correspondence": "go/ast walk over every Get*/Free* site vs Pool.disciplined", "problems": problems})
+    ctx.note("pool_user_structure", problems or "every Get* is followed at once by one deferred Free* of the same variable; nothing else frees")
+
+
 def hook_present():
     p = os.path.join(hv.REPO, "io", "verif_on.go")
     try:
@@ -1077,6 +1151,7 @@ def run(ctx):
     ml = hv.run_model("c14", [scribble_model_line(c) for c in cases])
     disagreements += [("scribble",) + d for d in eval_scribble(ctx, cases, byid, ml)]
 
+    run_pool_users(ctx)
     run_races(ctx, "c14")
     run_decoder_first_use(ctx, "c14")
     if not quick:
@@ -1113,7 +1188,8 @@ def run(ctx):
              "non-trivial = at least one use received a previously released coder from the real pool. scribble: exhaustive "
              "(destination type x wire form) cells x {simple, ref} x {slice, Formatter, reader, 1-byte reader, 7-byte reader}; "
              "non-trivial = the decoded value holds byte data. viewapi: every safe and documented-unsafe buffer entry point. "
-             "race: fresh-type scenarios, one process each. decrace: decoder-side first use of wide (150-field) fresh types, A into WT while "
+             "poolusers: every codec / Formatter entry point through all its exits in the catalogue order and in seeded random orders, "
+             "pool exclusivity checked after every step, then overlapping uses. race: fresh-type scenarios, one process each. decrace: decoder-side first use of wide (150-field) fresh types, A into WT while "
              "B into *WT / WO{In WT; P *WT} / []WT, one round per family, 12-20 families per process. forced / forceddec (with the hooks): "
              "the three encoder schedules and the decoder schedule. distinct by full case text")
     if structure:
